@@ -91,40 +91,6 @@ example : validate (cfgOf docInv) (.ref "TextContent") (.obj [("type", .str "ima
   simp [validate, cfgOf, Cfg.find, classes, validateMembers, assemble, collapse, setKey, fieldValue, seqFields,
     lookup, Class.byName, Class.byWire, Class.attrOf, validatePrim]
 
-/-- **Every union of model classes in the table is separated.**  For every field of every discovered
-class and every ordered pair (`a` tried before `b`) of model-class members of a union in its type:
-`a` and `b` carry a `Literal` tag under the same wire name with disjoint constants (then
-`c09_discriminated_keeps_variant` rejects a `b`-object at `a`), or `a` requires a member that `b` does
-not declare (then `missing_required_rejects` rejects a `b`-object that has no unknown member of that
-name: `TextResourceContents | BlobResourceContents`, which the spec does not discriminate).  This is
-the syntactic reason why the hypothesis `unamb` of `c09_conforming_identity` holds on spec-valid
-traffic; a union added later that is not separated breaks this theorem.  (Finite generated table.) -/
-theorem c09_unions_separated :
-    ∀ c ∈ classes, ∀ f ∈ c.fields, ∀ u ∈ unionsOf f.ty, ∀ p ∈ orderedPairs u, separated classes p.1 p.2 = true := by
-  decide +kernel
-
-/-- non-vacuity: the table has a union of four model classes (six ordered pairs) -/
-example : ∃ c ∈ classes, ∃ f ∈ c.fields, ∃ u ∈ unionsOf f.ty, (orderedPairs u).length ≥ 6 := by decide +kernel
-
-/-- **Catalogue of leaf coercions** (`_deep_validate`, class branch).  Whenever the fallback accepts a
-primitive value — for every primitive type and EVERY JSON value — it keeps the value or applies
-exactly one of seven coercions: `str(int)`, `str(bool)`, `str(float)`, `int("digits")`, `float(bool)`,
-`float("digits")`, `bool("true"/"1"/"yes"/"on"/…)`.  Nothing else can change a leaf; none of them
-applies to a value that already has the JSON type of the member (F-C09c inputs are exactly the
-inputs of the seven). -/
-theorem c09_leaf_coercions_catalogue (t : Ty) (j : Json) (v : TVal) (h : validatePrim t j = .ok v) :
-    v = .leaf j ∨ ∃ j', v = .leaf j' ∧ Coerced t j j' :=
-  validatePrim_keeps_or_coerces t j v h
-
-/-- A coerced leaf is a fixpoint: validating the coerced value again keeps it (so a value that went
-through the typed view once is stable from then on). -/
-theorem c09_leaf_coercion_idempotent (t : Ty) (j j' : Json) (h : validatePrim t j = .ok (.leaf j')) :
-    validatePrim t j' = .ok (.leaf j') :=
-  validatePrim_idempotent t j j' h
-
-example : Coerced .int (.str "-12") (.int (-12)) ∧ Coerced .str (.int 5) (.str "5") :=
-  ⟨.intOfStr _ _ (by decide), .strOfInt 5⟩
-
 /-- hook names of a class that a backend calls after construction -/
 def calledHooks (calls : List String) (c : Class) : List String := c.hooks.filter (fun h => calls.contains h)
 
